@@ -22,6 +22,7 @@ package forwarding
 
 import (
 	"encoding/hex"
+	"errors"
 	"fmt"
 	"strconv"
 	"strings"
@@ -124,6 +125,19 @@ func (a *HypAttributes) Validate() error {
 	if a.DestinationDomain == HypNobleMainnetDomain ||
 		a.DestinationDomain == HypNobleTestnetDomain {
 		return fmt.Errorf("destination domain %d is a Noble domain", a.DestinationDomain)
+	}
+
+	if a.GasLimit.IsNil() || a.GasLimit.IsNegative() {
+		return errors.New("gas limit must be set and cannot be negative")
+	}
+
+	if a.MaxFee.Amount.IsNil() || a.MaxFee.Amount.IsNegative() {
+		return errors.New("max fee amount must be set and cannot be negative")
+	}
+	if a.MaxFee.Amount.IsPositive() {
+		if err := sdk.ValidateDenom(a.MaxFee.Denom); err != nil {
+			return fmt.Errorf("invalid max fee denom: %w", err)
+		}
 	}
 
 	if a.CustomHookMetadata != "" {
